@@ -82,6 +82,7 @@ SettleWithRetry(mode, s) ==
           [] s.dkind = "stop"  -> <<"fail", FailClass(s)>>
           [] s.dkind = "abort" -> <<"cancel", "-">>
           [] s.dkind = "zero"  -> <<"fail", "UNKNOWN">>
+          [] s.dkind = "cancel" /\ s.cout = "nested" -> <<"fail", "UNKNOWN">>   \* as call() does
           [] OTHER             -> <<"cancel", "-">>     \* escaped retry.execute(): finally net
 
 \* call(): an exception-caused stop re-raises the operation's exception, which
